@@ -22,10 +22,10 @@ Section Global.
 Variable tp : N.            (* the topic *)
 Variable mem : list N.      (* configured membership, the same at every honest member *)
 Variable exp : nat.         (* expectedMemberCount *)
-Variables fx fs : bool.     (* variant flags fix_onepass, fix_solo *)
+Variables fx fs fq : bool.  (* variant flags fix_onepass, fix_solo, fix_queries *)
 Variable honest : N -> Prop.
 
-Definition cfgOf (h : N) : cfg := mkCfg h tp mem exp fx fs.
+Definition cfgOf (h : N) : cfg := mkCfg h tp mem exp fx fs fq.
 
 Definition gevent := (N * event)%type.
 
@@ -61,7 +61,7 @@ Inductive extends (S : gstate) : gstate -> Prop :=
 Definition gconts (h : N) (em : list (N * output)) : list view :=
   flat_map (fun xo => if fst xo =? h then match snd xo with Continue L => [L] | _ => [] end else []) em.
 Definition gerrs (h : N) (em : list (N * output)) : list unit :=
-  flat_map (fun xo => if fst xo =? h then match snd xo with Return_err => [tt] | _ => [] end else []) em.
+  flat_map (fun xo => if fst xo =? h then match snd xo with Return_err _ => [tt] | _ => [] end else []) em.
 
 Lemma in_gconts h em L : In L (gconts h em) <-> In (h, Continue L) em.
 Proof.
@@ -71,12 +71,12 @@ Proof.
   - intros H. exists (h, Continue L). split; [exact H|]. simpl. rewrite N.eqb_refl. left. reflexivity.
 Qed.
 
-Lemma in_gerrs h em : In tt (gerrs h em) <-> In (h, Return_err) em.
+Lemma in_gerrs h em : In tt (gerrs h em) <-> exists e, In (h, Return_err e) em.
 Proof.
   unfold gerrs. rewrite in_flat_map. split.
   - intros ([x o] & Hx & Hin). simpl in Hin. destruct (x =? h) eqn:E; [|contradiction].
-    apply N.eqb_eq in E. subst. destruct o; simpl in Hin; try contradiction. exact Hx.
-  - intros H. exists (h, Return_err). split; [exact H|]. simpl. rewrite N.eqb_refl. left. reflexivity.
+    apply N.eqb_eq in E. subst. destruct o; simpl in Hin; try contradiction. eauto.
+  - intros [e H]. exists (h, Return_err e). split; [exact H|]. simpl. rewrite N.eqb_refl. left. reflexivity.
 Qed.
 
 Lemma gconts_app h em (x : N) (o : list output) :
@@ -106,7 +106,17 @@ Qed.
 Definition announced (S : gstate) (h k : N) (v : view) : Prop :=
   exists ty, ty <> MResp /\ In (h, Handle k (ty, (tp, k), v)) (hist S).
 
-Definition phase_list (p : phase) (L : view) : Prop := (exists n, p = Query L n) \/ p = Done L.
+Definition phase_list (p : phase) (L : view) : Prop := (exists a q, p = Query L a q) \/ p = Done L.
+
+(* queries still expected when the second loop starts *)
+Definition qbase : nat := if fq then (exp - 1)%nat else 0%nat.
+
+(* what is known about a first query (p, l) that h accepted: it is in the history; and if p is honest (and h is in
+   the list), h answered it, with a sorted list that contains l and that h's view contains *)
+Definition qfact (S : gstate) (h p : N) (l : view) : Prop :=
+  In (h, Handle p (MQuery, (tp, p), l)) (hist S) /\ p <> h /\ In p mem /\
+  (honest p -> fx = true -> In h l ->
+   exists v, In (h, SendTo p MResp v) (emitted S) /\ incl l v /\ ssorted v /\ incl v (h :: keys (views (g S h)))).
 
 Record Inv (S : gstate) : Prop := {
   I_nodup : forall h, honest h -> NoDup (keys (views (g S h)));
@@ -131,15 +141,30 @@ Record Inv (S : gstate) : Prop := {
   I_auth : forall h from m, In (h, Handle from m) (hist S) -> honest from -> accepts (cfgOf h) from m = true ->
      authentic S h from m;
   I_fail : forall h, honest h -> ph (g S h) = Failed ->
-     In (h, CtxDone) (hist S) \/ (exp < 1 + length (keys (views (g S h))))%nat }.
+     In (h, CtxDone) (hist S) \/ (exp < 1 + length (keys (views (g S h))))%nat;
+  I_stop : forall h, honest h -> stopped (g S h) = true -> ph (g S h) = Failed \/ exists L, ph (g S h) = Done L;
+  I_qb : forall h L, honest h -> In (h, Bcast MQuery L) (emitted S) -> fx = true ->
+     forall b, In b L -> b <> h -> announced S h b L;
+  I_qs : forall h, honest h ->
+     NoDup (map fst (qchan (g S h)) ++ qacc (g S h)) /\
+     incl (map fst (qchan (g S h)) ++ qacc (g S h)) (queried (g S h)) /\
+     (ph (g S h) = Collect -> qacc (g S h) = []) /\
+     (forall p l, In (p, l) (qchan (g S h)) -> qfact S h p l) /\
+     (forall p L, In p (qacc (g S h)) -> phase_list (ph (g S h)) L -> qfact S h p L);
+  I_qn : forall h, honest h ->
+     (forall L a q, ph (g S h) = Query L a q -> q = (qbase - length (qacc (g S h)))%nat) /\
+     (forall L, ph (g S h) = Done L -> (qbase <= length (qacc (g S h)))%nat) }.
 
 Lemma Inv_init : Inv ginit.
 Proof.
   constructor; simpl; try (intros; contradiction); try reflexivity.
   - intros. constructor.
   - intros. discriminate.
-  - intros h L _ [[n H]|H]; discriminate.
+  - intros h L _ [(a & q & H)|H]; discriminate.
   - intros. discriminate.
+  - intros. discriminate.
+  - intros h _. split; [constructor|]. split; [intros ? []|]. split; [reflexivity|]. split; intros; contradiction.
+  - intros h _. split; intros; discriminate.
 Qed.
 
 Lemma NoDup_snoc {A} (l : list A) (a : A) : NoDup l -> ~ In a l -> NoDup (l ++ [a]).
@@ -168,7 +193,7 @@ Proof.
   intros HI Hadm. destruct ge as [h ev]. destruct Hadm as [Hh Hauth].
   pose proof (announced_mono S (h, ev)) as AM.
   unfold gstep in *. destruct (step (cfgOf h) (g S h) ev) as [st' o] eqn:Hs.
-  destruct HI as [J1 J2 J3 J4 J5 J6 J7 J8 J9 J10 J11 J12].
+  destruct HI as [J1 J2 J3 J4 J5 J6 J7 J8 J9 J10 J11 J12 J13 J14 J15 J16].
   set (g' := fun x => if N.eq_dec x h then st' else g S x).
   assert (Hgh : g' h = st') by (unfold g'; destruct (N.eq_dec h h); congruence).
   assert (Hgo : forall x, x <> h -> g' x = g S x) by (intros x Hx; unfold g'; destruct (N.eq_dec x h); congruence).
@@ -302,43 +327,43 @@ Proof.
        (fs = false -> L = [] \/ (2 <= length L)%nat)).
     { intros Hin. destruct (QL L Hin) as (A & B & C & D & E & F & _).
       split; [apply EM; auto|]. auto 10. }
-    destruct PM as [Hsame _ _|L0 n0 Hc Hev Hq Hb _ _|L0 Hc Hev Hd Hb _ _|L0 k Hq Hev Hq' _ _|L0 Hq Hev Hd _ _|Hq Hev Hf _ _].
+    destruct PM as [Hsame _ _|L0 a0 q0 Hc Hev Hq Hq0 Hb _ _|L0 Hc Hev Hd He1 Hb _ _|L0 a0 q0 a1 q1 Hq Hev Hq' _ _|L0 a0 q0 Hq Hev Hd _ _|Hq Hev Hf _ _].
     + apply Keep. rewrite <- Hsame. exact Hpl.
-    + apply New. destruct Hpl as [[n Hn]|Hn]; rewrite Hq in Hn; inversion Hn; subst; exact Hb.
-    + apply New. destruct Hpl as [[n Hn]|Hn]; rewrite Hd in Hn; inversion Hn; subst; exact Hb.
-    + apply Keep. left. destruct Hpl as [[n Hn]|Hn]; rewrite Hq' in Hn; inversion Hn; subst. eauto.
-    + apply Keep. left. destruct Hpl as [[n Hn]|Hn]; rewrite Hd in Hn; inversion Hn; subst. eauto.
-    + destruct Hpl as [[n Hn]|Hn]; rewrite Hf in Hn; discriminate.
+    + apply New. destruct Hpl as [(a & q & Hn)|Hn]; rewrite Hq in Hn; inversion Hn; subst L0; exact Hb.
+    + apply New. destruct Hpl as [(a & q & Hn)|Hn]; rewrite Hd in Hn; inversion Hn; subst L0; exact Hb.
+    + apply Keep. left. destruct Hpl as [(a & q & Hn)|Hn]; rewrite Hq' in Hn; inversion Hn; subst L0. eauto.
+    + apply Keep. left. destruct Hpl as [(a & q & Hn)|Hn]; rewrite Hd in Hn; inversion Hn; subst L0. eauto.
+    + destruct Hpl as [(a & q & Hn)|Hn]; rewrite Hf in Hn; discriminate.
   - (* I_cnt *)
     intros x Hx. rewrite gconts_app. destruct (N.eq_dec x h) as [->|Hxh].
     2:{ rewrite (Hgo x Hxh). replace (h =? x) with false by (symmetry; apply N.eqb_neq; congruence).
         rewrite app_nil_r. auto. }
     rewrite Hgh, N.eqb_refl, (J8 h Hh). fold (g S h).
-    destruct PM as [Hsame Hco _|L0 n0 Hc Hev Hq Hb Hco _|L0 Hc Hev Hd Hb Hco _|L0 k Hq Hev Hq' Hco _|L0 Hq Hev Hd Hco _|Hq Hev Hf Hco _]; rewrite Hco.
+    destruct PM as [Hsame Hco _|L0 a0 q0 Hc Hev Hq Hq0 Hb Hco _|L0 Hc Hev Hd He1 Hb Hco _|L0 a0 q0 a1 q1 Hq Hev Hq' Hco _|L0 a0 q0 Hq Hev Hd Hco _|Hq Hev Hf Hco _]; rewrite Hco.
     + rewrite Hsame, app_nil_r. reflexivity.
     + rewrite Hc, Hq. reflexivity.
     + rewrite Hc, Hd. reflexivity.
     + rewrite Hq, Hq'. reflexivity.
     + rewrite Hq, Hd. reflexivity.
-    + rewrite Hf. destruct Hq as [Hq|(L0 & n0 & Hq)]; rewrite Hq; reflexivity.
+    + rewrite Hf. destruct Hq as [Hq|(L0 & a0 & q0 & Hq)]; rewrite Hq; reflexivity.
   - (* I_err *)
     intros x Hx. rewrite gerrs_app. destruct (N.eq_dec x h) as [->|Hxh].
     2:{ rewrite (Hgo x Hxh). replace (h =? x) with false by (symmetry; apply N.eqb_neq; congruence).
         rewrite app_nil_r. auto. }
     rewrite Hgh, N.eqb_refl, (J9 h Hh). fold (g S h).
-    destruct PM as [Hsame _ Her|L0 n0 Hc Hev Hq Hb _ Her|L0 Hc Hev Hd Hb _ Her|L0 k Hq Hev Hq' _ Her|L0 Hq Hev Hd _ Her|Hq Hev Hf _ Her]; rewrite Her.
+    destruct PM as [Hsame _ Her|L0 a0 q0 Hc Hev Hq Hq0 Hb _ Her|L0 Hc Hev Hd He1 Hb _ Her|L0 a0 q0 a1 q1 Hq Hev Hq' _ Her|L0 a0 q0 Hq Hev Hd _ Her|Hq Hev Hf _ Her]; rewrite Her.
     + rewrite Hsame, app_nil_r. reflexivity.
     + rewrite Hc, Hq. reflexivity.
     + rewrite Hc, Hd. reflexivity.
     + rewrite Hq, Hq'. reflexivity.
     + rewrite Hq, Hd. reflexivity.
-    + rewrite Hf. destruct Hq as [Hq|(L0 & n0 & Hq)]; rewrite Hq; reflexivity.
+    + rewrite Hf. destruct Hq as [Hq|(L0 & a0 & q0 & Hq)]; rewrite Hq; reflexivity.
   - (* I_ctx *)
     intros x Hx Hin. apply in_app_iff in Hin. destruct (N.eq_dec x h) as [->|Hxh].
     2:{ rewrite (Hgo x Hxh). destruct Hin as [Hin|[Hin|[]]]; [auto|congruence]. }
     rewrite Hgh. destruct Hin as [Hin|[Hin|[]]].
     + specialize (J10 h Hh Hin).
-      destruct PM as [Hsame _ _|L0 n0 Hc|L0 Hc|L0 k Hq|L0 Hq|Hq _ Hf].
+      destruct PM as [Hsame _ _|L0 a0 q0 Hc|L0 Hc|L0 a0 q0 a1 q1 Hq|L0 a0 q0 Hq|Hq _ Hf].
       * rewrite Hsame. exact J10.
       * destruct J10 as [J|[L J]]; congruence.
       * destruct J10 as [J|[L J]]; congruence.
@@ -366,6 +391,137 @@ Proof.
       { intros k Hk. destruct (keys_in _ _ Hk) as [v Hv']. apply (Hprov k v Hv'). }
       pose proof (intersected_length_bound (cfgOf h) s (keys (views (g S h))) (J1 h Hh) Hselfks Hnds Hincl) as Hb.
       simpl in Hlt. lia.
+  - (* I_stop *)
+    intros x Hx Hst. destruct (N.eq_dec x h) as [->|Hxh]; [|rewrite (Hgo x Hxh) in *; auto].
+    rewrite Hgh in *. destruct (step_stop_flag _ _ _ _ _ Hs Hst) as [Hold|(_ & Hp & Hsame)].
+    + pose proof (J13 h Hh Hold) as Hp. rewrite (step_stopped (cfgOf h) (g S h) ev Hold Hp) in Hs.
+      inversion Hs; subst st'. exact Hp.
+    + rewrite Hsame. exact Hp.
+  - (* I_qb *)
+    intros x L Hx Hin Hfx b Hb Hbx. apply EM in Hin. destruct Hin as [Hin|[-> Hin]].
+    + apply AM. eapply J14; eauto.
+    + destruct (QL L Hin) as (_ & _ & _ & _ & Q5 & _). apply Q5; assumption.
+  - (* I_qs *)
+    intros x Hx. destruct (N.eq_dec x h) as [->|Hxh].
+    2:{ rewrite (Hgo x Hxh). destruct (J15 x Hx) as (A & B & C & D & E).
+        assert (QFx : forall p l, qfact S x p l -> qfact S' x p l).
+        { intros p l (F1 & F2 & F3 & F4). split; [apply HM, F1|]. split; [exact F2|]. split; [exact F3|].
+          intros Hp Hfx Hl. destruct (F4 Hp Hfx Hl) as (v & G1 & G2 & G3 & G4). exists v.
+          split; [apply EM; auto|]. simpl. rewrite (Hgo x Hxh). auto. }
+        split; [exact A|]. split; [exact B|]. split; [exact C|]. split; [intros; apply QFx; auto|intros; apply QFx; eauto]. }
+    rewrite Hgh. destruct (J15 h Hh) as (A & B & C & D & E).
+    assert (QF : forall p l, qfact S h p l -> qfact S' h p l).
+    { intros p l (F1 & F2 & F3 & F4). split; [apply HM, F1|]. split; [exact F2|]. split; [exact F3|].
+      intros Hp Hfx Hl. destruct (F4 Hp Hfx Hl) as (v & G1 & G2 & G3 & G4). exists v.
+      split; [apply EM; auto|]. simpl. rewrite Hgh. split; [exact G2|]. split; [exact G3|].
+      intros y Hy. destruct (G4 y Hy) as [G|G]; [left; exact G|right; apply V1, G]. }
+    assert (PL : forall L, phase_list (ph st') L -> qacc (g S h) <> [] -> phase_list (ph (g S h)) L).
+    { intros L Hpl Hne.
+      destruct PM as [Hsame _ _|L0 a0 q0 Hc|L0 Hc|L0 a0 q0 a1 q1 Hq Hev Hq' _ _|L0 a0 q0 Hq Hev Hd _ _|Hq Hev Hf _ _].
+      - rewrite <- Hsame. exact Hpl.
+      - exfalso. apply Hne, C, Hc.
+      - exfalso. apply Hne, C, Hc.
+      - left. destruct Hpl as [(a & q & Hn)|Hn]; rewrite Hq' in Hn; inversion Hn; subst L0. eauto.
+      - left. destruct Hpl as [(a & q & Hn)|Hn]; rewrite Hd in Hn; inversion Hn; subst L0. eauto.
+      - destruct Hpl as [(a & q & Hn)|Hn]; rewrite Hf in Hn; discriminate. }
+    destruct (step_q _ _ _ _ _ Hs) as [Q1 Q2 Q3 _|p l _ Hev Hps Hpm Hnq Q1 Q2 Q3 Hph Ho|L a q p l rest Hev Hph Hqc Q2 Q1 Hcase].
+    + rewrite Q1, Q2, Q3. split; [exact A|]. split; [exact B|].
+      split. { intros Hc'. apply C.
+               destruct PM as [Hsame _ _|L0 a0 q0 Hc Hev Hq|L0 Hc Hev Hd|L0 a0 q0 a1 q1 Hq Hev Hq'|L0 a0 q0 Hq Hev Hd|Hq Hev Hf]; congruence. }
+      split; [intros; apply QF; auto|].
+      intros p L Hp Hpl. apply QF. apply E; [exact Hp|]. apply PL; [exact Hpl|]. intros Hn. rewrite Hn in Hp. exact Hp.
+    + rewrite Q1, Q2, Q3, Hph. simpl in Hps, Hpm.
+      assert (Hfresh : ~ In p (map fst (qchan (g S h)) ++ qacc (g S h))) by (intros Hin; apply Hnq, B, Hin).
+      split.
+      { rewrite map_app. simpl. rewrite <- app_assoc. simpl.
+        apply NoDup_Add with (a := p) (l := map fst (qchan (g S h)) ++ qacc (g S h)); [|constructor; assumption].
+        apply Add_app. }
+      split.
+      { intros y Hy. rewrite map_app in Hy. simpl in Hy. rewrite <- app_assoc in Hy. simpl in Hy.
+        apply in_app_iff in Hy. destruct Hy as [Hy|[Hy|Hy]]; [right; apply B, in_app_iff; auto|left; auto|right; apply B, in_app_iff; auto]. }
+      split; [exact C|]. split.
+      { intros p0 l0 Hin. apply in_app_iff in Hin. destruct Hin as [Hin|[Hin|[]]]; [apply QF, D, Hin|].
+        inversion Hin; subst p0 l0. clear Hin.
+        split. { simpl. apply in_app_iff. right. left. rewrite Hev. reflexivity. }
+        split; [exact Hps|]. split; [exact Hpm|].
+        intros Hp Hfx Hl. exists (my_view (cfgOf h) st').
+        split. { apply EM. right. split; [reflexivity|]. rewrite Ho. left. reflexivity. }
+        assert (Hacc : accepts (cfgOf h) p (MQuery, (tp, p), l) = true) by (apply accepts_spec; simpl; auto).
+        assert (Hself' : ~ In h (keys (views st'))).
+        { intros Hin. destruct (keys_in _ _ Hin) as [v Hv]. destruct (V3 h v Hv) as [Hold|(ty & _ & _ & Hne & _)];
+            [apply Hselfks; eapply in_keys; eauto|simpl in Hne; congruence]. }
+        split.
+        { (* p really broadcast this query, so p had found l stored for h, so h had announced l *)
+          subst ev. specialize (Hauth Hp Hacc). simpl in Hauth.
+          assert (Hbq : In (p, Bcast MQuery l) (emitted S)).
+          { destruct Hauth as [H0|H0]; [exact H0|]. pose proof (J4 p h MQuery l Hp H0). discriminate. }
+          assert (Hhp : h <> p) by congruence.
+          destruct (J14 p l Hp Hbq Hfx h Hl Hhp) as (ty & Hty & Hhist).
+          destruct (J5 p MQuery l Hp Hbq) as (_ & Hinc & _).
+          assert (Hhm : In h mem).
+          { destruct (Hinc h Hl) as [E0|Hk]; [congruence|]. destruct (keys_in _ _ Hk) as [v Hv].
+            apply (J2 p h v Hp Hv). }
+          assert (Hacc2 : accepts (cfgOf p) h (ty, (tp, h), l) = true) by (apply accepts_spec; simpl; auto).
+          pose proof (J11 p h _ Hhist Hh Hacc2) as Hau2. simpl in Hau2.
+          assert (Hbh : In (h, Bcast ty l) (emitted S)).
+          { destruct Hau2 as [H0|H0]; [exact H0|]. pose proof (J4 h p ty l Hh H0). contradiction. }
+          destruct (J5 h ty l Hh Hbh) as (_ & Hinc2 & _).
+          intros y Hy. apply my_view_of_in. simpl. destruct (Hinc2 y Hy) as [E0|Hk]; [left; auto|right; apply V1, Hk]. }
+        split. { apply my_view_of_ssorted; [apply V2, J1, Hh|exact Hself']. }
+        simpl. rewrite Hgh. intros y Hy. apply my_view_of_in in Hy. simpl in Hy. destruct Hy; [left; auto|right; auto]. }
+      intros p0 L Hp0 Hpl. apply QF. apply E; [exact Hp0|exact Hpl].
+    + rewrite Q1, Q2. rewrite Hqc in A, B, D. simpl in A, B.
+      assert (Hnd' : NoDup (map fst rest ++ p :: qacc (g S h))).
+      { apply (NoDup_Add (Add_app p (map fst rest) (qacc (g S h)))). inversion A; subst. split; assumption. }
+      destruct Hcase as [(-> & Q3 & Hph')|(Hne & Q3 & Hph')]; rewrite Q3.
+      * split; [exact Hnd'|].
+        split. { intros y Hy. apply B. apply in_app_iff in Hy. destruct Hy as [Hy|[Hy|Hy]];
+                   [right; apply in_app_iff; auto|left; auto|right; apply in_app_iff; auto]. }
+        split. { intros Hc'. destruct Hph' as [Hp'|[Hp' _]]; congruence. }
+        split. { intros p0 l0 Hin. apply QF, D. right. exact Hin. }
+        intros p0 L0 Hp0 Hpl.
+        assert (L0 = L).
+        { destruct Hph' as [Hp'|[Hp' _]]; destruct Hpl as [(a1 & q1 & Hn)|Hn]; rewrite Hp' in Hn; inversion Hn; reflexivity. }
+        subst L0. apply QF. destruct Hp0 as [<-|Hp0]; [apply D; left; reflexivity|].
+        apply E; [exact Hp0|left; eauto].
+      * rewrite Hph'.
+        split. { apply NoDup_remove_1 with (a := p). exact Hnd'. }
+        split. { intros y Hy. apply B. right. exact Hy. }
+        split; [exact C|].
+        split. { intros p0 l0 Hin. apply QF, D. right. exact Hin. }
+        intros p0 L0 Hp0 Hpl. apply QF. apply E; assumption.
+  - (* I_qn *)
+    intros x Hx. destruct (N.eq_dec x h) as [->|Hxh]; [|rewrite (Hgo x Hxh); auto].
+    rewrite Hgh. destruct (J16 h Hh) as [N1 N2]. destruct (J15 h Hh) as (_ & _ & C & _ & _).
+    assert (Hqb : (if fix_queries (cfgOf h) then (expected (cfgOf h) - 1)%nat else 0%nat) = qbase) by reflexivity.
+    destruct (step_q _ _ _ _ _ Hs) as [Q1 Q2 Q3 Q4|p l _ Hev Hps Hpm Hnq Q1 Q2 Q3 Hph Ho|L a q p l rest Hev Hph Hqc Q2 Q1 Hcase].
+    + rewrite Q3. destruct (ph (g S h)) eqn:Ep.
+      * (* Collect *)
+        destruct PM as [Hsame _ _|L0 a0 q0 Hc Hev Hq Hq0 _ _ _|L0 Hc Hev Hd He1 _ _ _|L0 a0 q0 a1 q1 Hq|L0 a0 q0 Hq|Hq Hev Hf _ _];
+          try congruence.
+        -- split; intros; congruence.
+        -- rewrite (C eq_refl). split; [|intros; congruence].
+           intros L a q Hn. rewrite Hq in Hn. inversion Hn; subst. rewrite Hqb. simpl. lia.
+        -- rewrite (C eq_refl). split; [intros; congruence|]. intros L Hn. simpl.
+           unfold qbase. simpl in He1. destruct fq; lia.
+        -- split; intros; congruence.
+      * destruct (Q4 _ _ _ eq_refl) as [(a' & Hn')|[(Hn' & Hq0)|Hn']]; rewrite Hn'.
+        -- split; [|intros; congruence]. intros L a q Hn. inversion Hn; subst. eapply N1; eauto.
+        -- split; [intros; congruence|]. intros L Hn. pose proof (N1 _ _ _ eq_refl). lia.
+        -- split; intros; congruence.
+      * assert (Hsame : ph st' = Done members).
+        { destruct PM as [Hsame _ _|L0 a0 q0 Hc|L0 Hc|L0 a0 q0 a1 q1 Hq|L0 a0 q0 Hq|[Hq|(L0 & a0 & q0 & Hq)] _ _ _ _]; congruence. }
+        rewrite Hsame. split; [intros; congruence|]. intros L Hn. eapply N2; eauto.
+      * assert (Hsame : ph st' = Failed).
+        { destruct PM as [Hsame _ _|L0 a0 q0 Hc|L0 Hc|L0 a0 q0 a1 q1 Hq|L0 a0 q0 Hq|_ _ Hf _ _]; congruence. }
+        rewrite Hsame. split; intros; congruence.
+    + rewrite Q3, Hph. split; assumption.
+    + destruct Hcase as [(-> & Q3 & Hph')|(Hne & Q3 & Hph')]; rewrite Q3.
+      * pose proof (N1 _ _ _ Hph) as Hq0.
+        destruct Hph' as [Hp'|[Hp' Hz]]; rewrite Hp'.
+        -- split; [|intros; congruence]. intros L0 a0 q0 Hn. inversion Hn; subst. simpl. lia.
+        -- split; [intros; congruence|]. intros L0 Hn. simpl. lia.
+      * rewrite Hph'. split; assumption.
 Qed.
 
 Lemma reachable_Inv S : reachable S -> Inv S.
@@ -476,7 +632,7 @@ Proof.
   intros HR Hadm Hh Hfin. destruct ge as [x ev]. unfold gstep.
   destruct (step (cfgOf x) (g S x) ev) as [st' o] eqn:Hs. simpl. rewrite gconts_app.
   destruct (x =? h) eqn:E; [|apply app_nil_r]. apply N.eqb_eq in E. subst x.
-  destruct (step_phase _ _ _ _ _ Hs) as [_ Hco _|L0 n0 Hc|L0 Hc|L0 k Hq|L0 Hq|Hq _ _ Hco _];
+  destruct (step_phase _ _ _ _ _ Hs) as [_ Hco _|L0 a0 q0 Hc|L0 Hc|L0 a0 q0 a1 q1 Hq|L0 a0 q0 Hq|Hq _ _ Hco _];
     try (rewrite Hco; apply app_nil_r);
     destruct Hfin as [Hf|[L Hf]]; try congruence.
 Qed.
@@ -500,7 +656,7 @@ Theorem exact_run_only_deadline S (H : list N) :
   reachable S -> NoDup H -> (forall x, honest x <-> In x H) -> length H = exp ->
   (forall h from m, In (h, Handle from m) (hist S) -> In from H) ->
   forall h, honest h ->
-    (In (h, Return_err) (emitted S) -> In (h, CtxDone) (hist S)) /\
+    (forall e, In (h, Return_err e) (emitted S) -> In (h, CtxDone) (hist S)) /\
     (forall L, In (h, Continue L) (emitted S) -> L = isort H).
 Proof.
   intros HR Hnd Hhon Hlen Honly h Hh. pose proof (reachable_Inv S HR) as HI.
@@ -515,7 +671,8 @@ Proof.
     - destruct HhH as [E|HhH]; [congruence|]. simpl. rewrite <- (IH H2 HhH). reflexivity. }
   pose proof (NoDup_incl_length (I_nodup _ HI h Hh) Hkeys) as Hkl.
   split.
-  - intros Herr. apply in_gerrs in Herr. rewrite (I_err _ HI h Hh) in Herr.
+  - intros e Herr. assert (Herr' : In tt (gerrs h (emitted S))) by (apply in_gerrs; eauto). clear Herr. rename Herr' into Herr.
+    rewrite (I_err _ HI h Hh) in Herr.
     destruct (ph (g S h)) eqn:Ep; simpl in Herr; try contradiction.
     destruct (I_fail _ HI h Hh Ep) as [A|A]; [exact A|lia].
   - intros L Hc. pose proof (continue_done S h L HR Hh Hc) as Hd.
@@ -523,5 +680,91 @@ Proof.
     apply ssorted_incl_length; [exact A|apply isort_ssorted, Hnd| |rewrite isort_length; congruence].
     intros x Hx. apply isort_in. destruct (D x Hx) as [<-|Hk]; [exact HhH|].
     apply Hkeys in Hk. apply in_remove in Hk. tauto.
+Qed.
+
+(* C07, teardown safety (repaired variant fix_queries, in an exact honest run: the members are the duplicate-free list
+   H, exp = |H|, all traffic handled comes from members of H).  When a has completed with L, then for EVERY other
+   member b: a has handled b's query carrying L -- so b had finished its first loop -- and a has sent b its
+   acknowledgement, carrying exactly L.  Nothing b still needs depends on a serving the topic any longer. *)
+Theorem teardown_safe S (H : list N) :
+  fx = true -> fq = true ->
+  reachable S -> NoDup H -> (forall x, honest x <-> In x H) -> length H = exp ->
+  (forall h from m, In (h, Handle from m) (hist S) -> In from H) ->
+  forall a L, honest a -> ph (g S a) = Done L ->
+  forall b, In b H -> b <> a ->
+    In (a, Handle b (MQuery, (tp, b), L)) (hist S) /\ In (a, SendTo b MResp L) (emitted S).
+Proof.
+  intros Hfx Hfq HR Hnd Hhon Hlen Honly a L Ha Hd b HbH Hba. pose proof (reachable_Inv S HR) as HI.
+  assert (HaH : In a H) by (apply Hhon, Ha).
+  assert (Hrl : (1 + length (remove N.eq_dec a H) = length H)%nat).
+  { clear - Hnd HaH. induction H as [|x L0 IH]; simpl in *; [contradiction|]. inversion Hnd; subst.
+    destruct (N.eq_dec a x) as [->|Hne].
+    - rewrite notin_remove by assumption. reflexivity.
+    - destruct HaH as [E|HaH]; [congruence|]. simpl. rewrite <- (IH H2 HaH). reflexivity. }
+  destruct (I_qs _ HI a Ha) as (Q1 & _ & _ & _ & Q5).
+  destruct (I_qn _ HI a Ha) as [_ N2]. specialize (N2 L Hd). unfold qbase in N2. rewrite Hfq in N2.
+  assert (Hqn : NoDup (qacc (g S a))).
+  { clear - Q1. induction (map fst (qchan (g S a))) as [|x l IH]; simpl in Q1; [exact Q1|]. inversion Q1; auto. }
+  assert (Hqi : incl (qacc (g S a)) (remove N.eq_dec a H)).
+  { intros p Hp. destruct (Q5 p L Hp (or_intror Hd)) as (F1 & F2 & _). apply in_in_remove; [exact F2|]. eapply Honly; eauto. }
+  assert (Hall : incl (remove N.eq_dec a H) (qacc (g S a))).
+  { apply NoDup_length_incl; [exact Hqn|lia|exact Hqi]. }
+  assert (Hbq : In b (qacc (g S a))) by (apply Hall, in_in_remove; assumption).
+  destruct (Q5 b L Hbq (or_intror Hd)) as (F1 & _ & _ & F4).
+  split; [exact F1|].
+  destruct (I_ql _ HI a L Ha (or_intror Hd)) as (_ & SL & LL & InL & IncL & _ & _).
+  assert (HaL : In a L) by (apply InL; destruct H; [contradiction|simpl in Hlen; lia]).
+  destruct (F4 (proj2 (Hhon b) HbH) Hfx HaL) as (v & G1 & G2 & G3 & G4).
+  assert (Hkeys : incl (keys (views (g S a))) H).
+  { intros k Hk. destruct (keys_in _ _ Hk) as [w Hw]. destruct (I_views _ HI a k w Ha Hw) as (_ & _ & ty & _ & Hin).
+    eapply Honly; eauto. }
+  assert (HLH : forall x, In x L <-> In x H).
+  { intros x. split.
+    - intros Hx. destruct (IncL x Hx) as [<-|Hk]; [exact HaH|apply Hkeys, Hk].
+    - apply NoDup_length_incl; [apply ssorted_nodup, SL|lia|].
+      intros y Hy. destruct (IncL y Hy) as [<-|Hk]; [exact HaH|apply Hkeys, Hk]. }
+  assert (v = L).
+  { apply ssorted_ext; [exact G3|exact SL|]. intros x. split; [|apply G2].
+    intros Hx. apply HLH. destruct (G4 x Hx) as [<-|Hk]; [exact HaH|apply Hkeys, Hk]. }
+  subst v. exact G1.
+Qed.
+
+(* ... "before a continued": at the very step in which a invokes its continuation, the acknowledgement for b has
+   already been sent and b's query already been handled. *)
+Theorem teardown_safe_before S ge (H : list N) :
+  fx = true -> fq = true ->
+  reachable S -> admissible S ge -> NoDup H -> (forall x, honest x <-> In x H) -> length H = exp ->
+  (forall h from m, In (h, Handle from m) (hist (gstep S ge)) -> In from H) ->
+  forall a L, honest a -> gconts a (emitted S) = [] -> gconts a (emitted (gstep S ge)) = [L] ->
+  forall b, In b H -> b <> a ->
+    In (a, Handle b (MQuery, (tp, b), L)) (hist S) /\ In (a, SendTo b MResp L) (emitted S).
+Proof.
+  intros Hfx Hfq HR Hadm Hnd Hhon Hlen Honly a L Ha Hc0 Hc1 b HbH Hba.
+  assert (HR1 : reachable (gstep S ge)) by (apply reach_step; assumption).
+  assert (Hd : ph (g (gstep S ge) a) = Done L).
+  { apply continue_done; [exact HR1|exact Ha|]. apply in_gconts. rewrite Hc1. left. reflexivity. }
+  destruct (teardown_safe (gstep S ge) H Hfx Hfq HR1 Hnd Hhon Hlen Honly a L Ha Hd b HbH Hba) as [T1 T2].
+  destruct ge as [x ev]. unfold gstep in *. destruct (step (cfgOf x) (g S x) ev) as [st' o] eqn:Hs. simpl in *.
+  rewrite gconts_app, Hc0 in Hc1. simpl in Hc1.
+  destruct (x =? a) eqn:Exa; [|discriminate]. apply N.eqb_eq in Exa. subst x.
+  assert (Hnh : forall from m, ev <> Handle from m).
+  { intros from m ->. destruct (step_phase _ _ _ _ _ Hs) as [_ Hco _|? ? ? _ He|? _ He|? ? ? ? ? _ [He|He]|? ? ? _ [He|He]|_ [He|He]];
+      try discriminate. rewrite Hco in Hc1. discriminate. }
+  split.
+  - apply in_app_iff in T1. destruct T1 as [T1|[T1|[]]]; [exact T1|]. inversion T1. exfalso. eapply Hnh; eauto.
+  - apply in_emitted_step in T2. destruct T2 as [T2|[_ T2]]; [exact T2|].
+    destruct (step_send_handle _ _ _ _ _ _ _ _ Hs T2) as [m Hm]. exfalso. eapply Hnh; eauto.
+Qed.
+
+(* a member that is no longer served stays as it is and emits nothing, whatever is delivered to it *)
+Lemma stopped_silent S ge h : reachable S -> honest h -> stopped (g S h) = true ->
+  g (gstep S ge) h = g S h /\ (forall o, In (h, o) (emitted (gstep S ge)) -> In (h, o) (emitted S)).
+Proof.
+  intros HR Hh Hst. pose proof (I_stop _ (reachable_Inv S HR) h Hh Hst) as Hp.
+  destruct ge as [x ev]. unfold gstep. destruct (step (cfgOf x) (g S x) ev) as [st' o] eqn:Hs. simpl.
+  destruct (N.eq_dec h x) as [<-|Hne].
+  - rewrite (step_stopped (cfgOf h) (g S h) ev Hst Hp) in Hs. inversion Hs; subst. split; [reflexivity|].
+    intros o0 Hin. rewrite app_nil_r in Hin. exact Hin.
+  - split; [reflexivity|]. intros o0 Hin. apply in_emitted_step in Hin. destruct Hin as [Hin|[E _]]; [exact Hin|congruence].
 Qed.
 End Global.
